@@ -1234,6 +1234,13 @@ class ABCPropertyGraph(ABCPropertyGraphConstants):
         assert lsliver.node_id is not None
         assert interfaces is not None
 
+        # check the endpoints before the Link node is created (callers may pass a generator): each must be
+        # an existing ConnectionPoint, otherwise a Link with only some of its edges would stay behind
+        interfaces = list(interfaces)
+        for i in interfaces:
+            if not self.node_exists(node_id=i, label=ABCPropertyGraph.CLASS_ConnectionPoint):
+                raise PropertyGraphQueryException(graph_id=self.graph_id, node_id=i,
+                                                  msg="Unable to find the ConnectionPoint a link should attach to")
         props = self.link_sliver_to_graph_properties_dict(lsliver)
         self.add_node(node_id=lsliver.node_id, label=ABCPropertyGraph.CLASS_Link, props=props)
         # add edge links to specified interfaces
@@ -1297,6 +1304,9 @@ class ABCPropertyGraph(ABCPropertyGraphConstants):
         """
         assert interface.node_id is not None
 
+        if parent_node_id is not None:
+            # the parent must exist before the ConnectionPoint is created, otherwise an orphan stays behind
+            self.get_node_properties(node_id=parent_node_id)
         props = self.interface_sliver_to_graph_properties_dict(interface)
         self.add_node(node_id=interface.node_id, label=ABCPropertyGraph.CLASS_ConnectionPoint, props=props)
         if parent_node_id is not None:
